@@ -143,22 +143,28 @@ def voteOn (j : Int) (mid : Bool) (ancs : List Nat) (ssw : List Rec) (x : Rec) :
 def entsOf (e : E) (laP : List LaEnt) (t : List Rec) : List (Nat × List LaEnt) :=
   (e.creator, laP.filter (fun x => x.creator != e.creator)) :: t.map (fun r => (r.e.creator, r.la))
 
+/-- `_round`: 0 without parents, else the parent round, plus one when a supermajority of that
+    round's witnesses is strongly seen -/
+def roundFrom (ents : List (Nat × List LaEnt)) (t : List Rec) (pr : Int) : Int :=
+  if pr == -1 then 0 else
+  if Gen.cmpRound.evalN (strongSeen ps ents t pr).length (sm ps) then pr + 1 else pr
+
 /-- the record of `e` from the ancestor lists of its parents -/
-def infoStep (e : E) (isp iop : List Rec) : List Rec :=
+def headRec (e : E) (isp iop : List Rec) : Rec :=
   let t := unionRecs isp iop
   let ancs := e.id :: t.map (fun r => r.e.id)
   let laP := laMerge (laOf isp) (laOf iop)
   let ents := entsOf e laP t
-  let pr := parentRound isp iop
-  let r : Int := if pr == -1 then 0 else
-    if Gen.cmpRound.evalN (strongSeen ps ents t pr).length (sm ps) then pr + 1 else pr
+  let r := roundFrom ps ents t (parentRound isp iop)
   let wit := ps.contains e.creator && Gen.cmpWitness.eval r (rOf isp)
   let ssw := strongSeen ps ents t (r - 1)
   let cands := t.filter (fun x => x.wit && decide (x.round < r))
   let vd := if wit then cands.map (fun x => (x.e.id, voteOn ps r e.mid ancs ssw x)) else []
   { e := e, round := r, wit := wit, ancs := ancs, nssw := ssw.length, la := laSet laP ⟨e.creator, e, r⟩,
     votes := vd.map (fun p => (p.1, p.2.1)),
-    decs := vd.filterMap (fun p => p.2.2.map (fun b => (p.1, b))) } :: t
+    decs := vd.filterMap (fun p => p.2.2.map (fun b => (p.1, b))) }
+
+def infoStep (e : E) (isp iop : List Rec) : List Rec := headRec ps e isp iop :: unionRecs isp iop
 
 /-- one record per ancestor-or-self of the event, the event's own record first -/
 def info : E → List Rec
